@@ -578,6 +578,9 @@ func ParseArrayExpr(p *ParserZH) syntax.UnionMapList {
 		isArrayType = true
 		// append item on array
 		ar.Items = append(ar.Items, exprI)
+		// like the pairs of a 【A = 1 …】 literal, items may stand on lines of their own
+		// without commas: a line break inside the brackets does not end the statement
+		p.unsetStmtCompleteFlag()
 	}
 
 	if isArrayType {
@@ -591,6 +594,7 @@ func ParseArrayExpr(p *ParserZH) syntax.UnionMapList {
 			if match, _ := p.tryConsume(TypeArrayQuoteR); match {
 				return ar
 			}
+			p.unsetStmtCompleteFlag()
 		}
 	} else {
 		// parse hashmap like 【A = 1，B = 2】
